@@ -632,6 +632,8 @@ class TermOracle(object):
                 h.violate(self.P, 'primitive_ne_definition@%s' % node.t, detail='%s: %s returned %r but its documented '
                           'inequality is %r on history tail %r' % (when, node.doc, bool(m_bool), ref_sat,
                           s['energy_history'][-4:]), **tags)
+        if node.t.startswith('Collapse') and isinstance(m_info, str):
+            self.check_mask_derivation(h, when, node, solver, m_info, tags)
         # info=True: names only satisfied primitives, empty iff unsatisfied
         if isinstance(m_info, str):
             named = set(m_info.split('; ')) if m_info else set()
@@ -654,6 +656,39 @@ class TermOracle(object):
                     h.violate(self.P, 'rebuilt_condition_differs', detail='%s: %s -> %r/%r, rebuilt twin -> %r/%r'
                               % (when, node.spec, m_bool, m_info, t_bool, t_info), **tags)
         return bool(m_bool)
+    def check_mask_derivation(self, h, when, node, solver, m_info, tags):
+        """what Collapse() does to a termination -- derive a condition with a grown mask (mask.update_mask) -- must leave the
+        condition it was derived from as it was: same reported state, same behaviour of a twin rebuilt from that state"""
+        import mystic.termination as mt, mystic.mask as ma, mystic.collapse as ct
+        from . import termref
+        obj = node.obj
+        want_mask = node.kw.get('mask')
+        want_mask = set(want_mask['__set__']) if isinstance(want_mask, dict) else want_mask
+        if m_info:
+            try:
+                col = ct.collapsed(m_info)
+                if col: ma.update_mask(obj, col)
+                h.run.probe('c10.mask_derived')
+            except Exception as e:
+                h.violate(self.P, 'condition_raised@%s' % node.t, detail='%s: deriving a masked copy of %s raised %r' % (when, node.spec, e), **tags)
+                return
+        try:
+            st = mt.state(obj)[obj.__doc__]
+        except Exception as e:
+            h.violate(self.P, 'rebuilt_condition_differs', detail='%s: state(%s) raised %r' % (when, node.spec, e), **tags); return
+        got = st.get('mask')
+        if (set(got) if got is not None else None) != (set(want_mask) if want_mask is not None else None):
+            h.violate(self.P, 'rebuilt_condition_differs', detail='%s: state() of %s reports mask=%r, it was built with mask=%r'
+                      % (when, obj.__doc__, got, want_mask), **tags)
+            return
+        try:
+            fresh = termref.rebuild(obj)
+            a, b = obj(solver, True), fresh(solver, True)
+        except Exception as e:
+            h.violate(self.P, 'rebuilt_condition_differs', detail='%s: rebuilding %s raised %r' % (when, node.spec, e), **tags); return
+        if a != b:
+            h.violate(self.P, 'rebuilt_condition_differs', detail='%s: %s -> %r, a twin rebuilt from its state now -> %r' % (when, node.spec, a, b), **tags)
+
     def boundary_probes(self, h, s, when, solver):
         """conditions whose tolerance is exactly the difference the run produced (and one ulp less)"""
         import mystic.termination as mt
